@@ -10,7 +10,7 @@ import z3
 from symnp import Engine, Rebinder, SV, SB, SymArray, sym_array, to_obj, _raw, arr1
 from symnp import ob as O
 from symnp.explore import Out
-from vf.common import Harness, TimerStub, snap
+from vf.common import Harness, TimerStub, snap, FAULT_BASES
 
 import pybads.function_logger.function_logger as flmod
 
@@ -72,12 +72,15 @@ class HFL(Harness):
                 return None
             return y
 
+        fk = p.get("fault_kind")
+        TE = TargetError if fk in (None, "exc") else type("TargetError_" + fk, (TargetError, FAULT_BASES[fk]), {})
+
         def fun(x):
             calls.append(snap(np.asarray(x)))
             if kind == "raise":
-                raise TargetError("target failed")
+                raise TE("target failed")
             if kind == "raise_noargs":
-                raise TargetError()          # e.g. a bare `assert` or `raise SomeError` in the user's target
+                raise TE()          # e.g. a bare `assert` or `raise SomeError` in the user's target
             if he:
                 if kind == "nontuple":
                     return y
@@ -109,6 +112,18 @@ class HFL(Harness):
                         eng.assume(v.e > 0)
                     a[i, j] = v
             return a
+        fresh = p.get("fresh", False)   # pre-state = exactly what the real __init__ built (n_filled must be 0)
+        if fresh:
+            assert n == 0
+            if not eng.concrete:
+                seen = {}   # identity-preserving conversion to object arrays: aliasing created by __init__ is kept
+                for nm in ("X", "X_orig", "Y", "Y_orig", "S", "n_evals", "fun_eval_time"):
+                    a = getattr(fl, nm, None)
+                    if isinstance(a, np.ndarray) and a.dtype != object:
+                        if id(a) not in seen:
+                            seen[id(a)] = to_obj(a)
+                        setattr(fl, nm, seen[id(a)])
+            fill = lambda name, w, pos=False: getattr(fl, dict(Xo="X_orig", Yo="Y_orig").get(name, name))
         fl.X = fill("X", D)
         fl.X_orig = fill("Xo", D)
         fl.Y = fill("Y", 1)
@@ -121,17 +136,20 @@ class HFL(Harness):
             if not eng.concrete:
                 eng.assume(z3.And(v.e >= 1, v.e <= 1000))
             ne[i, 0] = v
-        fl.n_evals = ne
-        fl.X_flag = np.full((cache,), False)
-        fl.X_flag[:n] = True
-        fl.fun_eval_time = np.full([cache, 1], np.nan) if eng.concrete else to_obj(np.full([cache, 1], np.nan))
-        fl.fun_eval_time[:n] = 0.5
-        fl.Xn = n - 1
-        fl.X_max_idx = n - 1
         fc0 = eng.integer("fc")
         if not eng.concrete:
             eng.assume(z3.And(fc0.e >= 0, fc0.e <= 100000))
-        fl.func_count = fc0
+        if not fresh:
+            fl.n_evals = ne
+            fl.X_flag = np.full((cache,), False)
+            fl.X_flag[:n] = True
+            fl.fun_eval_time = np.full([cache, 1], np.nan) if eng.concrete else to_obj(np.full([cache, 1], np.nan))
+            fl.fun_eval_time[:n] = 0.5
+            fl.Xn = n - 1
+            fl.X_max_idx = n - 1
+            fl.func_count = fc0
+        else:
+            fc0 = fl.func_count
         if he and not eng.concrete:
             for i in range(n):
                 for j in range(i):
@@ -186,7 +204,7 @@ class HFL(Harness):
             else:
                 out.ob("target_gets_point", ncalls == 1 and O.rows_eq(calls[-1], x, 0.0))
         if kind in ("raise", "raise_noargs"):
-            out.ob("target_exception_propagates_same_type", isinstance(exc, TargetError))
+            out.ob("target_exception_propagates_same_type", type(exc) is TE)
         elif not expect_valid and op == "call":
             out.ob("invalid_value_raises_ValueError", isinstance(exc, ValueError))
         if exc is not None:
@@ -205,6 +223,8 @@ class HFL(Harness):
         out.ob("returned_value_is_scalar", not isinstance(fval, np.ndarray))
         if op == "call":
             out.ob("func_count_plus_one", O.eq(fl.func_count, fc0 + 1, 0.0))
+            # the SD handed back is the one the target reported for THIS call (new row, merge and unrecorded re-sampling alike)
+            out.ob("returned_sd_is_reported_sd", O.eq(fsd_r, sd, 0.0) if he else fsd_r is None)
         else:
             out.ob("add_leaves_func_count", O.eq(fl.func_count, fc0, 0.0))
         dup = [O.rows_eq(pre["X"][i], x, 0.0) for i in filled]
